@@ -22,6 +22,7 @@ import (
 
 	"github.com/dgraph-io/badger/v4/options"
 	"github.com/dgraph-io/badger/v4/pb"
+	"github.com/dgraph-io/badger/v4/verifhook"
 	"github.com/dgraph-io/badger/v4/y"
 )
 
@@ -167,6 +168,7 @@ func helpOpenOrCreateManifestFile(dir string, readOnly bool, extMagic uint16,
 			_ = fp.Close()
 			return nil, Manifest{}, err
 		}
+		verifhook.FS("truncate", path, truncOffset, 0)
 	}
 	if _, err = fp.Seek(0, io.SeekEnd); err != nil {
 		_ = fp.Close()
@@ -224,8 +226,10 @@ func (mf *manifestFile) addChanges(changesParam []*pb.ManifestChange, opt Option
 		if _, err := mf.fp.Write(buf); err != nil {
 			return err
 		}
+		verifhook.FS("append", mf.fp.Name(), 0, int64(len(buf)))
 	}
 
+	defer func() { verifhook.FS("sync", mf.fp.Name(), 0, 0) }()
 	return syncFunc(mf.fp)
 }
 
@@ -279,6 +283,7 @@ func helpRewrite(dir string, m *Manifest, extMagic uint16) (*os.File, int, error
 		fp.Close()
 		return nil, 0, err
 	}
+	verifhook.FS("sync", rewritePath, 0, int64(len(buf)))
 
 	// In Windows the files should be closed before doing a Rename.
 	if err = fp.Close(); err != nil {
@@ -288,6 +293,7 @@ func helpRewrite(dir string, m *Manifest, extMagic uint16) (*os.File, int, error
 	if err := os.Rename(rewritePath, manifestPath); err != nil {
 		return nil, 0, err
 	}
+	verifhook.FS("rename", manifestPath, 0, 0)
 	fp, err = y.OpenExistingFile(manifestPath, 0)
 	if err != nil {
 		return nil, 0, err
